@@ -12,7 +12,7 @@ prop("C15",
                         "ssrb_cfg_tof_combined": 3000, "ssrb_cfg_tang_trimmed": 10000, "ssrb_cfg_max_segment_limited": 3000,
                         "zoom_cases_preserve_sum": 1000, "zoom_cases_preserve_values": 1000, "zoom_cases_preserve_projections": 1000,
                         "zoom_sum_checks": 2000, "zoom_com_checks": 1000, "zoom_uniform_checks": 150, "zoom_composition_checks": 10000,
-                        "zoom_comp_xy_overload": 1000, "zoom_comp_xy_overload_min_z_nonzero": 100,
+                        "zoom_comp_xy_overload": 1000, "zoom_comp_xy_overload_min_z_nonzero": 100, "zoom_cases_pure_shift_in_z": 120, "zoom_cases_pure_shift_in_xy_only": 70,
                         "zoom_comp_two_step_3d": 1000, "zoom_comp_two_step_xy_overload": 100,
                         "zoom_global_factor_checks": 1500, "zoom_geometry_checks": 4000},
               "thorough": {"ssrb_configs": 450000, "ssrb_conservation_checks": 140000, "ssrb_cfg_tof_combined": 80000,
